@@ -383,17 +383,24 @@ def findLeg (stops : List XStop) (rstart : Int) (rtw : TW) : Option (Sum (Nat ×
       some (if rstart < travel.1 then Sum.inl (x.2, (travel.1 - (rtw.2 - rtw.1), travel.1)) else Sum.inr (x.2, x.1.1.load))
     else none)
 
+/-- the stops after the scan over the legs: a transit stop is inserted when the break is taken on the way -/
+def reservedStops (stops : List XStop) (rs : Int) (rtw : TW) : List XStop :=
+  match findLeg stops rs rtw with
+  | some (Sum.inr (i, load)) =>
+    insertAt stops (i + 1) { loc := none, arrival := rtw.1, departure := rtw.2, distance := none, load := load, activities := [] }
+  | _ => stops
+
+/-- the break is moved in front of a leg (to the end of the previous stop) -/
+def reservedMoved (stops : List XStop) (rs : Int) (rtw : TW) : Option (Nat × TW) :=
+  match findLeg stops rs rtw with
+  | some (Sum.inl m) => some m
+  | _ => none
+
 /-- one reserved time, already resolved to its window `rtw` (latest start .. latest start + duration) and earliest start `rs` -/
 def insertReservedAt (v : Veh) (acts : List RAct) (shift : TW) (t : XTour) (rs : Int) (rtw : TW) (dur : Int) : XTour :=
   if !twIntersectsX shift rtw then t else
-  let info := findLeg t.stops rs rtw
-  let stops1 := match info with
-    | some (Sum.inr (i, load)) =>
-      insertAt t.stops (i + 1) { loc := none, arrival := rtw.1, departure := rtw.2, distance := none, load := load, activities := [] }
-    | _ => t.stops
-  let moved : Option (Nat × TW) := match info with
-    | some (Sum.inl m) => some m
-    | _ => none
+  let stops1 := reservedStops t.stops rs rtw
+  let moved := reservedMoved t.stops rs rtw
   let ov := waitingOverlap acts rtw dur
   let res := stops1.zipIdx.foldl (fun (acc : List XStop × WStat) x =>
     if twIntersectsX (x.1.arrival, x.1.departure) rtw then
